@@ -61,6 +61,9 @@ func (c *Ctx) statSend(in ssa.Instruction, withStat bool) bool {
 	// end marker is the call that passes nil)
 	if q, isP := v.(*ssa.Parameter); has && isP {
 		args := in.(ssa.CallInstruction).Common().Args
+		if fa, isFwd := c.sendForwarderArg(in.(ssa.CallInstruction)); isFwd {
+			args = []ssa.Value{fa}
+		}
 		raw := args[len(args)-1]
 		if mi, isMI := raw.(*ssa.MakeInterface); isMI {
 			raw = mi.X
@@ -320,7 +323,16 @@ func r06_4(c *Ctx, rule string) {
 		idOK := pl.Fields["ID"] != nil && isFieldLoad(pl.Fields["ID"], "fsutil.sendHandle.id")
 		c.R.Check(!hasData && idOK, rule, c.siteName(call)+"/terminator", c.pos(call), "empty DATA for the handle's id", "the terminator is not an empty DATA packet carrying the handle's id")
 		if !hasData && idOK {
-			term[c.reg(call)] = call
+			for _, k := range c.sendResultKeys(sf, call, func(ci ssa.CallInstruction) bool {
+				pl2, ok2 := c.packetOf(ci)
+				if !ok2 || !c.sendsPacket(ci, "PACKET_DATA") {
+					return false
+				}
+				_, d2 := pl2.Fields["Data"]
+				return !d2
+			}) {
+				term[k] = call
+			}
 		}
 	})
 	c.R.Floor(rule, "terminator sends in sendFile", len(term), 1)
